@@ -86,10 +86,14 @@ fn timeout_handler(data: TimerData) {
     }
 
     let event_data = unsafe { &mut *data.event_data };
+    #[cfg(may_verif)]
+    crate::verif::pt("iot.handler", crate::verif::addr(&*event_data), 0, 0);
     // remove the event timer
     event_data.timer.borrow_mut().take();
 
     // get and check the coroutine
+    #[cfg(may_verif)]
+    crate::verif::pt("iot.take", crate::verif::addr(&*event_data), 0, 0);
     let mut co = match event_data.co.take() {
         Some(co) => co,
         None => return,
@@ -145,6 +149,8 @@ impl EventData {
 
     #[inline]
     pub fn schedule(&self) {
+        #[cfg(may_verif)]
+        crate::verif::pt("ed.sched.take", crate::verif::addr(self), 0, 0);
         let co = match self.co.take() {
             Some(co) => co,
             None => return, // it's already take by selector
@@ -155,6 +161,8 @@ impl EventData {
         self.timer.borrow_mut().take().map(|h| {
             unsafe {
                 // tell the timer function not to cancel the io
+                #[cfg(may_verif)]
+                crate::verif::pt("ed.disarm", crate::verif::addr(self), 0, 0);
                 // it's not always true that you can really remove the timer entry
                 h.with_mut_data(|value| value.data.event_data = std::ptr::null_mut());
             }
@@ -168,6 +176,8 @@ impl EventData {
     /// used by local re-schedule that in `subscribe`
     #[inline]
     pub fn fast_schedule(&self) {
+        #[cfg(may_verif)]
+        crate::verif::pt("ed.fast.take", crate::verif::addr(self), 0, 0);
         let co = match self.co.take() {
             Some(co) => co,
             None => return, // it's already take by selector
@@ -178,6 +188,8 @@ impl EventData {
         self.timer.borrow_mut().take().map(|h| {
             unsafe {
                 // tell the timer function not to cancel the io
+                #[cfg(may_verif)]
+                crate::verif::pt("ed.disarm", crate::verif::addr(self), 0, 0);
                 // it's not always true that you can really remove the timer entry
                 h.with_mut_data(|value| value.data.event_data = std::ptr::null_mut());
             }
